@@ -1,6 +1,7 @@
 package main
 
 import (
+	"bytes"
 	"fmt"
 	"sort"
 	"strings"
@@ -168,6 +169,41 @@ func runC17(c *Ctx) {
 				Impl: fmt.Sprintf("%d listed", len(listed)) + " " + diffSets(want, listed), Spec: fmt.Sprintf("%d created", len(want))})
 		}
 		c.hist(fmt.Sprintf("http:%s:created", kind))
+		inst.Close()
+	}
+	// auto-bucket: an upload into a bucket that does not exist creates it — a bucket all the
+	// same: whatever then shows in the bucket list must have a name the rules accept
+	for _, kind := range c.kinds([]string{"mem", "bolt", "fsM-mem", "fsM-dir"}) {
+		inst, err := impl.New(kind, c.Tmp, gofakes3.WithAutoBucket(true))
+		if err != nil {
+			c.mismatch(Mismatch{Kind: "model", Backend: kind, Finger: "setup", Impl: err.Error()})
+			continue
+		}
+		var names []string
+		allStrings(c17Alphabet, 3, func(s string) { names = append(names, s) })
+		names = append(names, c17Special()...)
+		seen := map[string]bool{}
+		for _, name := range names {
+			if name == "" || strings.ContainsAny(name, "/?#\x00\n ") || seen[name] || strings.Trim(name, "/") != name {
+				continue
+			}
+			seen[name] = true
+			inst.Do(impl.Req{Method: "PUT", Path: "/" + impl.EscapePath(name) + "/obj", Body: bytes.NewReader([]byte("x"))})
+		}
+		r := inst.Do(impl.Req{Method: "GET", Path: "/"})
+		for _, n := range listBucketNames(r.Body) {
+			_, spec, err := c.D.Ask("validate " + drv.HexS(n))
+			if err != nil {
+				panic(err)
+			}
+			c.R.Evaluations++
+			if spec != "ok" {
+				c.mismatch(Mismatch{Kind: "spec", Backend: kind, Finger: "autobucket-invalid-name", Case: []string{"WithAutoBucket(true)", fmt.Sprintf("PUT /%s/obj", n), "GET /"},
+					Impl: fmt.Sprintf("bucket %q exists and is listed", n), Spec: "no bucket with a name the rules refuse"})
+				break
+			}
+		}
+		c.hist(fmt.Sprintf("http:%s:autobucket", kind))
 		inst.Close()
 	}
 }
